@@ -95,7 +95,7 @@ func c21Run(line string) string {
 			return "401"
 		}
 		return "pass"
-	case len(f) == 7 && f[0] == "ws":
+	case (len(f) == 7 || len(f) == 8) && f[0] == "ws":
 		return c21WS(f)
 	}
 	return "bad-op"
@@ -116,7 +116,11 @@ func c21WS(f []string) string {
 		h.SetICMPHandler(c23ICMP{w})
 	}
 	wsCfg := socks5.WebSocketConfig{Address: "127.0.0.1:0", PlainText: true}
-	if cfg.SOCKS5.Auth.Enabled { // agent.Start
+	switch {
+	case len(f) == 8 && f[7] == "c=nil": // a listener started directly, without an HTTP credential store
+	case len(f) == 8 && f[7] != "c=agent": // … or with a store over another user list
+		wsCfg.Credentials = agent.VerifC21CredStore(c21Config("1", f[7][2:]))
+	case cfg.SOCKS5.Auth.Enabled: // agent.Start
 		wsCfg.Credentials = agent.VerifC21CredStore(cfg)
 	}
 	must(srv.StartWebSocket(wsCfg))
@@ -124,7 +128,9 @@ func c21WS(f []string) string {
 	ctx, cancel := context.WithTimeout(context.Background(), 8*time.Second)
 	defer cancel()
 	hdr := http.Header{}
-	if f[3] != "-" {
+	if f[3] == "m" {
+		hdr.Set("Authorization", "Basic !!not-base64!!")
+	} else if f[3] != "-" {
 		p := strings.Split(f[3], ".")
 		hdr.Set("Authorization", "Basic "+base64.StdEncoding.EncodeToString(append(append(unhexTok(p[0]), ':'), unhexTok(p[1])...)))
 	}
@@ -138,7 +144,9 @@ func c21WS(f []string) string {
 	conn.SetReadLimit(1 << 20)
 	var mu sync.Mutex
 	var msgs [][]byte
+	readerDone := make(chan struct{})
 	go func() {
+		defer close(readerDone)
 		for {
 			_, data, err := conn.Read(ctx)
 			if err != nil {
@@ -161,13 +169,39 @@ func c21WS(f []string) string {
 		}
 		input = input[n:]
 	}
-	if !c23AtRest(5*time.Second, "internal/socks5.", "nhooyr.io/websocket") {
+	// Barrier: a WebSocket ping. The server answers it from inside the handler's next Read, i.e. after
+	// it has consumed and answered everything sent before; frames arrive in order, so when the pong
+	// (or the server's close) is here, every message the input caused has been collected. This does not
+	// depend on scheduling or on other goroutines in the process.
+	pctx, pcancel := context.WithTimeout(ctx, 5*time.Second)
+	pong := make(chan error, 1)
+	go func() { pong <- conn.Ping(pctx) }()
+	select {
+	case perr := <-pong: // answered; on an error the server is gone: let the reader drain to its close
+		if perr != nil {
+			select {
+			case <-readerDone:
+			case <-time.After(2 * time.Second):
+			}
+		}
+	case <-readerDone: // the server closed the connection: everything before its close frame was read
+	case <-pctx.Done():
+		pcancel()
 		conn.CloseNow()
-		return "timeout ws-quiesce"
+		return "timeout ws-ping"
 	}
+	pcancel()
 	conn.CloseNow()
-	for dl := time.Now().Add(3 * time.Second); time.Now().Before(dl) && srv.WebSocketConnectionCount() > 0; {
+	closed := false
+	for dl := time.Now().Add(5 * time.Second); time.Now().Before(dl); {
+		if srv.WebSocketConnectionCount() == 0 {
+			closed = true
+			break
+		}
 		time.Sleep(200 * time.Microsecond)
+	}
+	if !closed {
+		return "timeout ws-close"
 	}
 	mu.Lock()
 	defer mu.Unlock()
@@ -257,6 +291,7 @@ func c21Gen(w *bufio.Writer, seed int64, tier string) {
 	if thorough {
 		rounds = 12
 	}
+	fullCross := 0
 	for round := 0; round < rounds; round++ {
 		for _, ule := range userLists {
 			ul := ule.users
@@ -322,6 +357,41 @@ func c21Gen(w *bufio.Writer, seed int64, tier string) {
 					}
 					fmt.Fprintf(w, "ws 1 %s %s.%s ok.7f000001.8080 xx %s\n", ul, hx(name), hx(""), hexTok(append(append([]byte{5, 1, 2}, up(name, "")...), reqs[0]...)))
 				}
+			}
+			// the listener's own configuration: HTTP store {none, the agent's, another list} x Authorization
+			// {absent, right, wrong password, other user, malformed} x RFC 1929 {right, wrong, empty} — the
+			// handler's requirement must hold whatever the HTTP layer saw
+			if len(ule.valid) > 0 && len(ule.valid[0][0]) < 100 && len(ule.valid[0][1]) < 100 {
+				c := ule.valid[0]
+				other := user("mallory", "m-pass", "-")
+				wsx := func(hd, rp, st string) {
+					msg := append(append([]byte{5, 1, 2}, up(c[0], rp)...), reqs[0]...)
+					fmt.Fprintf(w, "ws 1 %s %s ok.7f000001.8080 xx %s %s\n", ul, hd, hexTok(msg), st)
+				}
+				right, wrongPw := hx(c[0])+"."+hx(c[1]), hx(c[0])+"."+hx(c[1]+"x")
+				// always: the configurations that distinguish behaviours — a gate-less listener with a
+				// plausible / wrong / absent header and wrong or empty RFC 1929 credentials; the agent's
+				// gate passed honestly followed by a wrong RFC 1929 login; a foreign store
+				wsx(right, c[1]+"x", "c=nil")
+				wsx(wrongPw, c[1]+"x", "c=nil")
+				wsx(right, "", "c=nil")
+				wsx("-", c[1]+"x", "c=nil")
+				wsx(right, c[1]+"x", "c=agent")
+				wsx(right, c[1], "c=agent")
+				wsx(hx("mallory")+"."+hx("m-pass"), c[1]+"x", "c="+other)
+				// the full cross product only for two lists (one plaintext, one hashed) — more in thorough
+				if fullCross < 2 || thorough {
+					fullCross++
+					for _, st := range []string{"c=nil", "c=agent", "c=" + other} {
+						for _, hd := range []string{"-", right, wrongPw, hx("mallory") + "." + hx("m-pass"), "m"} {
+							for _, rp := range []string{c[1], c[1] + "x", ""} {
+								wsx(hd, rp, st)
+							}
+						}
+					}
+				}
+				// and a client that skips RFC 1929 altogether behind a gate-less listener
+				fmt.Fprintf(w, "ws 1 %s %s.%s ok.7f000001.8080 xx %s c=nil\n", ul, hx(c[0]), hx("zz"), hexTok(append([]byte{5, 1, 0}, reqs[0]...)))
 			}
 			// bcrypt key-length classes against this list, on all three paths
 			if strings.Contains(ul, hx(p71)) || strings.Contains(ul, hx("ab")) {
